@@ -98,6 +98,10 @@ def answer (s : St) (v' : View) (pre : String) : St × String :=
 def parseEv (w : String) : Option Ev :=
   match w.toList with
   | ['t'] => some .topology
+  -- NEW_NODE / REMOVED_NODE / MOVED_NODE for an address: handleNodeEvent never looks at the address of a topology event
+  | 'n' :: _ => some .topology
+  | 'r' :: _ => some .topology
+  | 'm' :: _ => some .topology
   | 'u' :: r => some (.status .up (nat (String.ofList r)))
   | 'd' :: r => some (.status .down (nat (String.ofList r)))
   | 'x' :: r => some (.status .other (nat (String.ofList r)))
